@@ -65,6 +65,9 @@ def rule_g1(ck, prog, cfg):
                 p_, fl = C.const_of(a[2]), C.const_of(a[3])
             if p_ != prec:
                 probs.append("precision %s, expected %d significant digits" % (p_, prec))
+            if fl != 0:
+                probs.append("flags %s: the text differs from the %%g spelling of the printf builds (forced sign / upper-case `NAN`, `INF`, "
+                             "`E`), so the same value is spelled differently depending on the build" % fl)
             how = "%s(.., %s, flags %s)" % (c["callee"], p_, fl)
         else:
             if c["callee"] == "sprintf":
@@ -109,6 +112,23 @@ def rule_g1(ck, prog, cfg):
                 okret = True
         if not okret:
             probs.append("does not return strlen of the text produced")
+        # the text the conversion produced is what the caller gets: nothing writes into the buffer afterwards
+        pg_ = K.summaries(prog).pg(f)
+        after = pg_.reachable([pg_.after(c)])
+        for n_, t_ in C.stores(f):
+            bp = t_.get("path") or ""
+            if (bp == buf or bp.startswith(buf + "[") or bp.startswith("*" + buf)) and pg_.before(n_) in after:
+                probs.append("`%s` rewrites the converted text" % n_.src[:50])
+        for c2 in f.calls():
+            if c2 is c or c2.get("callee") in ("strlen", "__builtin_strlen", "strnlen", "BSD_strnlen"):
+                continue
+            if pg_.before(c2) in after and any(a2.strip_all_casts().get("path") == buf for a2 in C.call_args(c2)):
+                g2 = prog.fn(c2.get("callee") or "")
+                cst = g2 is not None and all((p2["type"].get("ct") or "").startswith("const ") for p2, a2 in zip(g2.params, C.call_args(c2))
+                                             if a2.strip_all_casts().get("path") == buf)
+                if not cst:
+                    probs.append("`%s` is handed the converted text for modification: what is returned is no longer the %%g text of the "
+                                 "value" % c2.src[:50])
         if probs:
             ck.violated("C16-G1", st, K.loc(f, c), "%s: %s" % (name, "; ".join(probs)))
         else:
